@@ -1,6 +1,7 @@
 from cfg.common import FLOAT_ASSUMPTION, NOTE_COMMON
 
 PROP = {
+    'anchors': [('track/path_track/path_tpc.rs', 'extend'), ('track/path_track/path_tpc.rs', 'new'), ('track/path_track/path_tpc.rs', 'finish'), ('track/path_track/path_tpc.rs', 'extract_speed_set')],
     'blocks': ['train'],
     'proof_modules': ['C06'],
     'namespaces': ['Altrios.Proofs.C06'],
